@@ -248,9 +248,9 @@ def gen_parse_type(rng, depth):
     if k == 'generic': t, ok = s(); return f"{rng.choice(['Option', 'Vec', 'std::vec::Vec', 'Box'])}<{t}>", ok
     if k == 'generic2': (t, o1), (u, o2) = s(), s(); return f"{rng.choice(['HashMap', 'std::collections::BTreeMap', 'Result'])}<{t}, {u}>", o1 and o2
     if k == 'ref':
-        t, ok = s(); return f"&{t}", ok and not t.startswith('&')
+        t, ok = s(); return f"&{t}", ok and not t.startswith(('&', '!'))      # wf of the grammar: the referent is a path, tuple or array
     if k == 'reflt':
-        t, ok = s(); return f"&'a {t}", ok and not t.startswith('&')
+        t, ok = s(); return f"&'a {t}", ok and not t.startswith(('&', '!'))
     if k == 'tuple': (t, o1), (u, o2) = s(), s(); return f"({t}, {u})", o1 and o2
     if k == 'tuple1': t, ok = s(); return f"({t},)", ok
     if k == 'unit': return "()", True
